@@ -53,3 +53,58 @@ PROPERTIES["C14"] = {
     "outside": "longer lists; the string builders IpFilter::allow/SubnetFilter::allow (str::parse); mixed-family endpoint pairs",
     "assumptions": ["E1 tracing stub (no subscriber)", "prefix lengths assumed within 0..=32 / 0..=128 (Ipv*Network::new rejects others)"],
 }
+
+# ------------------------------------------------------------------------------------------ C12
+_c12 = [
+    H("c12::c12_ttl_pairs", "quick", "all 4x4 TTL form pairs x all u8 parameters",
+      "distance in {None,0,2}; 0 only for equal initial TTL of the same class; bad vs good incomparable; defined pairs exact"),
+    H("c12::c12_ttl_hops_standard", "quick", "initial TTL in {32,64,128,255} x hops 0..=30, through the real calculate_ttl",
+      "distance to Value(initial) == 0"),
+    H("c12::c12_ttl_hops_nonstandard", "quick", "every other initial TTL x hops 0..=30 (known finding D10)",
+      "distance to Value(initial) == 0"),
+    H("c12::c12_window_pairs", "quick", "all 5x5 window form pairs x all parameters x mss presence/value",
+      "wildcard 0; same form 0/2; raw window vs mss*n is 0 iff window == n*mss; other forms never 0"),
+    H("c12::c12_version_pclass", "quick", "all IP version and payload class pairs", "decisive; wildcard accepts"),
+    H("c12::c12_tcp_sum_scalars", "quick", "tcp::Signature x TcpObservation, every scalar field symbolic, empty layouts",
+      "calculate_distance == sum of per-field distances, None on decisive mismatch", timeout_s=1200),
+    H("c12::c12_tcp_layout_quirks_decisive", "quick", "2-element option layouts and quirk lists, all elements symbolic",
+      "Some(0) iff lists equal else None"),
+    H("c12::c12_tcp_layout_length_decisive", "quick", "lists differing in length by one", "None"),
+    H("c12::c12_score_tcp", "quick", "all pairs of u32 distances", "range, monotone, 1.0 iff 0"),
+    H("c12::c12_score_http", "quick", "all pairs of u32 distances", "range, monotone, 1.0 iff 0"),
+    H("c12::c12_score_via_signature", "quick", "all u32 distances through DatabaseSignature::get_quality_score", "score law"),
+]
+for s in ["111", "011", "101", "110", "001", "100", "010", "000"]:
+    _c12.append(H(f"c12::c12_http_instance_{s}", "quick" if s in ("111", "101", "000") else "thorough",
+                  f"3-header signature, symbolic optional flags, observation keeps headers {s} (dropped ones assumed optional)",
+                  "distance_header == Some(0)"))
+for e in [0, 2, 3, 5, 6, 8, 9, 10]:
+    _c12.append(H(f"c12::c12_http_band_e{e}", "quick" if e in (0, 3, 9, 10) else "thorough",
+                  f"3-header signature with symbolic optional flags vs {e} foreign headers",
+                  "distance_header == band(required missing + unexpected)"))
+_c12 += [
+    H("c12::c12_http_value_change", "quick", "changed values on required/optional headers at the band edge", "band(errors)"),
+    H("c12::c12_http_signature_with_optional", "quick", "whole http::Signature, version pair symbolic, optional header present",
+      "instance => Some(0); version decisive; wildcard accepts"),
+    H("c12::c12_http_signature_without_optional", "quick", "same, optional header absent", "same"),
+    H("c12::c12_http_expsw_contains", "quick", "software string 'nginx/1.18.0' vs token 'nginx/'", "Some(0)"),
+    H("c12::c12_http_expsw_equal", "quick", "software string == token", "Some(0)"),
+    H("c12::c12_http_expsw_other", "quick", "software string 'Apache' vs token 'nginx/'", "Some(3)"),
+    H("c12::c12_http_expsw_substring_of_token", "quick", "software string 'ngin' (substring OF the token)", "Some(3)"),
+]
+PROPERTIES["C12"] = {
+    "harnesses": _c12,
+    "explanation": "Bounded model checking of the real distance functions of huginn-net-db: per-field distance laws over "
+                   "all form pairs and parameter values, the sum structure of tcp calculate_distance with every scalar "
+                   "symbolic, decisiveness of layouts/quirks with symbolic elements, both score tables over all 2^32 "
+                   "distances, and the HTTP header-list kernel on concrete header lists with symbolic optional flags.",
+    "functions": ["tcp::Ttl::distance_ttl", "tcp::WindowSize::distance_window_size", "tcp::IpVersion::distance_ip_version",
+                  "tcp::PayloadSize::distance_payload_size", "<tcp::Signature as DatabaseSignature<TcpObservation>>::calculate_distance",
+                  "TcpMatchQuality::distance_to_score", "HttpMatchQuality::distance_to_score", "get_quality_score",
+                  "HttpDistance::distance_header", "<http::Signature as DatabaseSignature<Http{Request,Response}Observation>>::calculate_distance (distance_ip_version, distance_horder, distance_habsent, distance_expsw)",
+                  "huginn_net_tcp::ttl::calculate_ttl"],
+    "bounds": "TCP: all values of all scalar fields; option/quirk lists of length <= 2. HTTP: signature lists of 3 concrete headers, "
+              "observed lists of <= 10 concrete headers, optional flags and versions symbolic; software strings: 4 concrete cases",
+    "outside": "longer lists; header names/values as symbolic strings; greedy alignment with foreign headers in the middle of the list",
+    "assumptions": ["E1 tracing stub", "observations carry V4/V6 and Zero/NonZero only (what the analyzers emit)"],
+}
